@@ -227,15 +227,13 @@ impl LeafUpdater {
             },
         };
 
-        if from == to {
-            // nothing to keep
-            return;
+        if from != to {
+            let values_size = base.node.values_size(from, to);
+            self.ops.push(LeafOp::KeepChunk(from, to, values_size));
+            self.gauge.ingest(to - from, values_size);
         }
 
-        let values_size = base.node.values_size(from, to);
-        self.ops.push(LeafOp::KeepChunk(from, to, values_size));
-        self.gauge.ingest(to - from, values_size);
-
+        // the replaced or deleted cell is reported even when there is nothing to keep before it.
         if found {
             let (val, overflow) = base.cell(to);
             if overflow {
